@@ -231,6 +231,9 @@ struct Edge {
   bool deps_loaded_ = false;
   bool deps_missing_ = false;
   bool generated_by_dep_loader_ = false;
+  /// True when env_ is a scope of its own, created for this edge's build-level
+  /// bindings, false when env_ is the enclosing (shared) file scope.
+  bool has_own_env_ = false;
   TimeStamp command_start_time_ = 0;
 
   const Rule& rule() const { return *rule_; }
